@@ -642,8 +642,52 @@ let run_history (payload : string) : string =
        | _ -> failwith "bad history header")
   | _ -> failwith "bad history payload"
 
+(* maporder: same payload as roundtrip; the model's bytes *)
+let run_maporder (payload : string) : string =
+  let i = String.index payload ';' in
+  let head = String.sub payload 0 i and rest = String.sub payload (i + 1) (String.length payload - i - 1) in
+  let fmt, opts = match split_ws head with
+    | [f; l; ind; o] -> (f, (opt_bytes l, opt_bytes ind, o)) | _ -> failwith "bad maporder head" in
+  match parse_sx rest with
+  | [e; a; t; v] ->
+      (match M.marshal_top (env_of e) (atlas_of a) (gtype_of t) (gval_of v) with
+       | M.MOk toks -> (match encode_tokens fmt opts toks with Some bs -> "ok " ^ hex_or_dash bs | None -> "merr")
+       | _ -> "merr")
+  | _ -> failwith "bad maporder payload"
+
+(* untrusted: "<c|j> <u|p> <env> <atlas> <type> | <hex>" -> "<class> req=<requested allocation of the decoder model>" *)
+let run_untrusted (payload : string) : string =
+  let i = String.index payload '|' in
+  let head = String.trim (String.sub payload 0 i) and hx = String.trim (String.sub payload (i + 1) (String.length payload - i - 1)) in
+  let fmt = String.sub head 0 1 and mode = String.sub head 2 1 in
+  let rest = String.sub head 4 (String.length head - 4) in
+  let bs = if hx = "-" then [] else bytes_of_hex hx in
+  match parse_sx rest with
+  | [e; a; t] ->
+      let toks, req =
+        if fmt = "c" then (match M.dec_run false bs with
+            | M.DOk (toks, _, al) -> (Some toks, al) | M.DFail (_, _, al) -> (None, al) | _ -> (None, M.Z0))
+        else (match M.jdec_run bs with M.JDOk (toks, _) -> (Some toks, M.Z0) | _ -> (None, M.Z0)) in
+      let cls = match toks with
+        | None -> "err"
+        | Some toks ->
+            if mode = "p" then
+              (if fmt = "c" then (match M.jenc_tokens (fun _ -> ([byte_tab.(1)], M.Zpos M.XH)) { M.jline = None; M.jindent = [] } toks with
+                   | M.JFinished (_, n) when int_of_nat n = List.length toks -> "ok" | _ -> "err")
+               else (match M.enc_tokens toks with
+                   | M.Finished (_, n) when int_of_nat n = List.length toks -> "ok" | _ -> "err"))
+            else
+              (match M.unmarshal_top (env_of e) (atlas_of a) (gtype_of t) toks with
+               | M.UTDone (n, _) when int_of_nat n = List.length toks -> "ok"
+               | M.UTFuel -> "fuel"
+               | _ -> "err") in
+      Printf.sprintf "%s req=%s" cls (dec_of_z req)
+  | _ -> failwith "bad untrusted payload"
+
 let dispatch (suite : string) (payload : string) : string =
   match suite with
+  | "untrusted" -> run_untrusted payload
+  | "maporder" -> run_maporder payload
   | "remarshal" -> run_remarshal payload
   | "clone" -> run_clone payload
   | "cbor-tags" -> run_cbor_tags payload
